@@ -8,7 +8,7 @@ open Drvlib
 open UniqueVars
 
 let name_of_string (s : string) : coq_N list =
-  Stdlib.List.init (Stdlib.String.length s) (fun i -> n_of_int (Char.code s.[i]))
+  Stdlib.List.init (Stdlib.String.length s) (fun i -> n_of_int (Char.code (Stdlib.String.get s i)))
 let string_of_name (l : coq_N list) : string =
   Stdlib.String.concat "" (Stdlib.List.map (fun c -> Stdlib.String.make 1 (Char.chr (int_of_n c))) l)
 
@@ -88,7 +88,8 @@ let spec line =
   try
     let (params, ploc, body) = definition line in
     let (o, sh) = ScopeSpec.resolve_def params ploc body in
-    Printf.sprintf "occ %s | sh %s"
+    Printf.sprintf "closed %d | occ %s | sh %s"
+      (if ScopeSpec.branch_closed body then 1 else 0)
       (Stdlib.String.concat " " (Stdlib.List.map (fun ((k, n), d) ->
          Printf.sprintf "%s=%s#%s" (okind k) (string_of_name n)
            (match d with None -> "-" | Some j -> string_of_int (int_of_nat j))) o))
